@@ -108,6 +108,55 @@ def exRunNodeBodyPre (σ : Env) : Bool := σ "select#0" == 0 || σ "select#0" ==
 
 def kpReportBody (_σ : Env) : Obs := ⟨[("typeswitch ev := e.(type)", [])], none, false⟩
 
+def truncationBody (σ : Env) : Obs :=
+  let p := σ "partition.partition.Partition"
+  let low := σ "rc.consumer.QueryWatermarkOffsets#0"
+  ⟨[("rc.consumer.QueryWatermarkOffsets", [σ "rc.topic", p, 10000])] ++
+        (if σ "rc.consumer.QueryWatermarkOffsets#2" ≠ 0 then []
+         else if σ "partition.fromOffset" < low then
+           (if low ≥ σ "partition.toOffset" then [("rc.tracker.MarkRecoveryComplete", [p, σ "partition.toOffset"])]
+            else [("rc.tracker.UpdateRecoveryRequest", [p, low, σ "partition.toOffset"])])
+         else []),
+       (if σ "rc.consumer.QueryWatermarkOffsets#2" ≠ 0 then some [] else none), false⟩
+
+def kcRevoke (σ : Env) : Obs :=
+  ⟨[("k.assignPartitionsCancel", []), ("k.assignPartitionsMutex.Lock", []),
+        ("defer func() { k.assignPartitionsMutex.Unlock() k.assignPartitionsCtx, k.assignPartitionsCancel = context.WithCancel(context.Background()) }", []),
+        ("k.consumer.Unassign", [])] ++
+        (if σ "k.recoveryConsumerEnabled" ≠ 0 then
+          [("k.recoveryConsumer.SetAssignedPartitions", [σ "[]kafka.TopicPartition{}"]), ("k.recoveryConsumer.RefreshAssignments", [])]
+         else []), none, false⟩
+
+def exDeliverMessage (σ : Env) : Obs :=
+  ⟨[("newContextMessage", [σ "msg"]), ("e.source.AcceptsMessage", [σ "ctxMsg.MessageType"])] ++
+        (if σ "e.source.AcceptsMessage#0" ≠ 0 then
+          [("e.source.Receive", [σ "newContextMessage#0"])] ++
+          (if σ "e.source.Receive#0" ≠ 0 then [("errorList.addError", [σ "e.source.Receive#0"])] else [])
+         else []) ++
+        [("foreach e.rootNodes: e.deliverMessageToNode", [σ "newContextMessage#0", σ "rootNode", σ "&errorList{}"])],
+       some [σ "errorList.errors"], false⟩
+
+def exSetupNodes (σ : Env) : Obs :=
+  ⟨[("node.NodeProcessor.Init", [σ "node.Config.ID", σ "e.fbContext"]),
+        ("node.NodeProcessor.Setup", [σ "node.Config.Params"])] ++
+        (if σ "node.NodeProcessor.Setup#0" ≠ 0 then [("os.Exit", [1])] else []) ++
+        (if σ "node.ErrorHandler" ≠ 0 then [("e.setupNodes", [σ "node.ErrorHandler"])] else []) ++
+        [("foreach node.Children: e.setupNodes", [σ "child"])], none, false⟩
+
+def exShutdown (σ : Env) : Obs :=
+  ⟨(if σ "e.source" ≠ 0 then [("e.source.Shutdown", [])] else []) ++
+        (if σ "e.messageReceiver" ≠ 0 then [("e.messageReceiver.Shutdown", [])] else []) ++
+        (if σ "e.leader" ≠ 0 then [("e.leader.Shutdown", [])] else []) ++
+        [("make", [σ "chan struct{}"]), ("go func() { done <- struct{}{} }", [])], some [σ "make#0"], false⟩
+
+def esTail (σ : Env) : Obs :=
+  if σ "retryCount" = σ "c.maxRetries" then
+        ⟨[("c.metrics.BulkMaxRetriesReached.Add", [σ "float64(len(res.Failed()))"])], some [σ "ErrMaxRetries"], false⟩
+      else ⟨[("go c.retryBulkIndex", [σ "retryRequests", wrap64 (σ "retryCount" + 1)])], some [0], false⟩
+
+def mrDeliverMessage (σ : Env) : Obs :=
+  ⟨[("r.notifier", [σ "msg"])], none, false⟩
+
 /-- one entry per exact theorem: the translated term, its expected observation, the theorem's hypothesis -/
 structure Case where
   name : String
@@ -127,6 +176,13 @@ def cases : List Case := [
   ⟨"superviseBody", Trans.exSuperviseBody, exSuperviseBody, fun _ => true⟩,
   ⟨"executeTail", Trans.exExecuteTail, exExecuteTail, fun _ => true⟩,
   ⟨"runNodeBody", Trans.exRunNodeBody, exRunNodeBody, exRunNodeBodyPre⟩,
-  ⟨"reportLoopBody", Trans.kpReportBody, kpReportBody, fun _ => true⟩]
+  ⟨"reportLoopBody", Trans.kpReportBody, kpReportBody, fun _ => true⟩,
+  ⟨"truncationBody", Trans.truncationBody, truncationBody, fun _ => true⟩,
+  ⟨"kcRevoke", Trans.kcRevoke, kcRevoke, fun _ => true⟩,
+  ⟨"exDeliverMessage", Trans.exDeliverMessage, exDeliverMessage, fun _ => true⟩,
+  ⟨"exSetupNodes", Trans.exSetupNodes, exSetupNodes, fun _ => true⟩,
+  ⟨"exShutdown", Trans.exShutdown, exShutdown, fun _ => true⟩,
+  ⟨"esTail", Trans.esTail, esTail, fun _ => true⟩,
+  ⟨"mrDeliverMessage", Trans.mrDeliverMessage, mrDeliverMessage, fun _ => true⟩]
 
 end Firebolt.TransExpected
